@@ -42,6 +42,8 @@ def allowList : List (String × String × String) := [
   ("sign_internal", "loop-exit", "break"),
   ("hint_bit_pack", "loop-exit", "continue"),
   ("key_gen", "try", "?;"),
+  -- the two `?` of the bounded rejection loop (fix 322a92d): they sit inside the `!CTEST && ..` rejection branches, dead under CTEST
+  ("sign_internal", "try", "?;"),
   -- memory addresses computed from non-public identifiers (kind `index`) and divisions by them (kind `divmod`, none at present):
   -- the challenge positions come from the public commitment hash; `j` counts accepted candidates of public, hash-derived streams and
   -- advances on every candidate under CTEST (the two neutralisations above)
